@@ -18,7 +18,11 @@ ESC = '\x1b'
 ALPHABETS = [
     'ab', 'aab-', 'ab ', 'a b\t', 'abc:', 'xab', 'aA', 'Ab c', ' \t\n', 'a\n\r', 'ab\n',
     '01-+', '0a', 'ab\x0b\x0c', 'a\x1c\x85 ', 'aß', 'İa', 'ǆa', 'aé', 'ab.', 'a(b',
+    '\u039f\u0394\u03a3', 'a\u03a3\u03c3 ', '\u03a3\u03c2', 's\u017f', 'a\xa0 ', 'b\u2003\u3000 ', '\u0131iI', '\xb5\u03bc',
 ]
+# complete literal SGR / CSI sequences: they can only get into a base text through assign_str or a concatenation
+# seam (the constructor parses them out), which is exactly where re-parsing slips hide
+RAW_SEQS = ['\x1b[1m', '\x1b[31m', '\x1b[m', '\x1b[0;4m', '\x1b[38;5;9m', '\x1b[2J', '\x1b[', '\x1b']
 README_TEXTS = ['This string will be formatted bold and red', 'Hello World!', 'manipulated',
                 'This string is red', 'Lots of text here', 'a,b,c', 'Title Case Here']
 
@@ -36,7 +40,11 @@ def gen_text(rng, maxlen=12, allow_empty=True, esc=False):
     n = rng.randint(0 if allow_empty else 1, maxlen)
     if rng.random() < 0.5:
         n = min(n, 6)
-    return ''.join(rng.choice(alpha) for _ in range(n))
+    t = ''.join(rng.choice(alpha) for _ in range(n))
+    if esc and rng.random() < 0.5:
+        k = rng.randint(0, len(t))
+        t = t[:k] + rng.choice(RAW_SEQS) + t[k:]
+    return t
 
 
 # --------------------------------------------------------------------------
@@ -151,6 +159,8 @@ def gen_code_list(rng, maxn=8, tail_incomplete=True, unknown=True, reset=True):
     return toks
 
 
+HOSTILE_BODIES = ['\xb2', '1;\xb2', '\u2460', '\u0663', '\uff11', '1 ', ' 1', '?1', '1:2', '3x', '\xb9\u2075', '1;;\xb3',
+                  '+1', '-1', '1_0', '0x1', '1.5', '1e2', '\t1', '38;5;\xb2', '999999999999999999999', '\x00', '\n']
 NON_SGR = [ESC + '[2J', ESC + '[?25h', ESC + '[1;1H', ESC + '[K', ESC + '[10A', ESC + '[?25l', ESC + '[6n']
 UNTERMINATED = [ESC + '[', ESC + '[1', ESC + '[1;31', ESC + '[?2']
 
@@ -165,7 +175,10 @@ def gen_ansi_input(rng, maxlen=12):
             r = rng.random()
             if r < 0.08:
                 parts.append(rng.choice(NON_SGR))
-            elif r < 0.12:
+            elif r < 0.11:
+                # parameter strings a terminal cannot read (semantics grey; the constructor must still return)
+                parts.append(ESC + '[' + rng.choice(HOSTILE_BODIES) + 'm')
+            elif r < 0.14:
                 parts.append(ESC)          # lone ESC stays text
             else:
                 toks = gen_code_list(rng, maxn=5)
@@ -249,6 +262,12 @@ class Exec:
                 return tuple(self.dec(e) for e in x['T'])
             if 'sl' in x:
                 return slice(*x['sl'])
+            if 'L' in x:
+                # one mutable list object per history, reused across calls with changing contents
+                if not hasattr(self, 'shared_list'):
+                    self.shared_list = []
+                self.shared_list[:] = [self.dec(e) for e in x['L']]
+                return self.shared_list
             if 'selflist' in x:
                 lst = [self.dec(e) for e in x['selflist']]
                 lst.append(lst)
@@ -614,8 +633,16 @@ class HistoryGen:
             return {'m': rng.choice(['partition', 'rpartition']), 'r': ri, 'a': [self.substr(v)]}
         if kind == 'replace':
             old = self.substr(v, allow_empty=False)
+            if rng.random() < 0.3 and n >= 2:
+                # a match of length >= 2 that straddles a change point
+                cps = self.cps(v)
+                if cps:
+                    c = rng.choice(cps)
+                    old = v.base_str[max(0, c - 1):c + rng.choice([1, 2])] or old
             r = rng.random()
-            if r < 0.45:
+            if r < 0.08:
+                new = old
+            elif r < 0.45:
                 new = self.text(maxlen=3)
             elif r < 0.55:
                 new = R
@@ -788,7 +815,8 @@ def gen_matchspec(rng, text):
         ch = (rng.choice(text) if text else 'a')
         ch = re.escape(ch)
         p = rng.choice(['a*', 'b?', '(?=a)', 'ab|b', '.', ch + '+', ch, '[ab]', '\\w+', '\\s', '(a)(b)?', ch + '*',
-                        '$', '^', 'A', '[A-Z]', ''])
+                        '$', '^', 'A', '[A-Z]', '', 'a*?', ch + '*?', ch + '??', '|' + ch + 'b', '|' + ch, '\\b|\\w',
+                        ch + '{0,2}?', '\\d*|[a-z]+', '(?:)|' + ch + '+', ch + '|', '\\B', '(?i:' + ch + ')'])
     if rng.random() < 0.4:
         kw['match_case'] = rng.random() < 0.6
     if rng.random() < 0.5:
